@@ -520,7 +520,7 @@ func init() {
 		ruleFCClient(r)
 		ruleFileLeak(r)
 		ruleFieldFileReplaced(r)
-		r.support([]string{"fc-refs", "fc-identity", "fc-removed-writes", "erruse", "close-reports-errors", "commit-order"})
+		r.support([]string{"fc-refs", "fc-identity", "fc-removed-writes", "erruse", "close-reports-errors", "commit-order", "fc-open-returns", "sticky-error", "flush-error-returned"})
 	},
 		"Decides structural necessary conditions of 'Close stops everything and releases every resource', not goroutine/descriptor counts: for every go statement in the module (inventory, min 5) the goroutine begins with defer close(done), its loop has a stop case that never re-enters the loop, GC supervisors cancel the cycle context and wait for a running cycle on stop, the go statement is the last fallible step of its spawner, and a stopper closes the stop channel before waiting for done, with every flush/file-close/snapshot in the stopper reachable only behind that wait (or the never-started edge); Store.Close reaches every component Close on all paths; OpenStore and the inner Open functions release what they acquired before every error return reachable after the acquisition; cache handles are returned and only closed by their last holder. Not covered: a writer blocked in flushTick while Close runs, transient handles on fault paths inside upgrade/remap helpers, actual counts.",
 		"started-indicators (Store.running, Index.gcStop, MultihashPrimary.gc) are the ones assigned next to the go statements")
